@@ -602,6 +602,59 @@ class Exec:
             st.defs[n] = (op, a)
             self.push(st, Val(ZP.var(n), 32, tag=(op, a)))
             return
+        # ---- memory, locals, depth (C18): words are kept positionally; loads produce fresh words recorded with their address
+        if op == "neg":
+            a = self.pop(st)
+            self.push(st, Val(ZP.const(0) - a.z, P - 1, wrapped=True))
+            return
+        if op == "sdepth":
+            self.push(st, Val(ZP.var("depth@%d" % len(st.notes)), U32 - 1, tag=("sdepth",)))
+            st.notes.append(("sdepth", ln))
+            return
+        if op == "loc_storew":
+            st.mem[("loc", int(imm[0]))] = list(st.stack[:4])
+            st.notes.append(("loc_storew", int(imm[0]), ln))
+            return
+        if op == "loc_loadw":
+            k = ("loc", int(imm[0]))
+            if k not in st.mem:
+                raise Undecided("%s:%d: loc_loadw.%s before any store" % (self.m.path, ln, imm[0]))
+            st.stack[:4] = list(st.mem[k])
+            st.notes.append(("loc_loadw", int(imm[0]), ln))
+            return
+        if op == "mem_loadw":
+            a = self.pop(st) if not imm else const(int(imm[0]))
+            w = []
+            for i in range(4):
+                n = st.new("ld", P - 1)
+                w.append(Val(ZP.var(n), P - 1))
+            st.stack[:4] = w
+            st.notes.append(("mem_loadw", a.z, [x.z for x in w], ln))
+            return
+        if op == "mem_storew":
+            a = self.pop(st) if not imm else const(int(imm[0]))
+            st.notes.append(("mem_storew", a.z, [x.z for x in st.stack[:4]], ln))
+            return
+        if op == "adv_pipe":
+            ptr = st.stack[12]
+            w = []
+            for i in range(8):
+                n = st.new("adv", P - 1)
+                st.adv.append(n)
+                w.append(Val(ZP.var(n), P - 1))
+            st.stack[:8] = w
+            st.stack[12] = Val(ptr.z + ZP.const(2), P - 1, wrapped=ptr.wrapped)
+            st.notes.append(("adv_pipe", ptr.z, [x.z for x in w], ln))
+            return
+        if op == "hperm":
+            ins_ = [x.z for x in st.stack[:12]]
+            w = []
+            for i in range(12):
+                n = st.new("hp", P - 1)
+                w.append(Val(ZP.var(n), P - 1))
+            st.stack[:12] = w
+            st.notes.append(("hperm", ins_, [x.z for x in w], ln))
+            return
         # ---- advice
         if op == "adv_push":
             n = int(imm[0])
@@ -614,10 +667,10 @@ class Exec:
             # advice injector (decorator): no effect on the stack
             st.injected.append(ins)
             return
-        if op in ("loc_store", "loc_storew", "loc_load", "loc_loadw", "mem_load", "mem_store", "mem_loadw", "mem_storew", "locaddr",
+        if op in ("loc_store", "loc_load", "mem_load", "mem_store", "locaddr",
                   "pow2", "u32split", "u32divmod", "u32div", "u32mod", "div", "inv", "neg", "exp", "u32shl", "u32shr", "u32rotl", "u32rotr", "u32lt", "u32gt",
-                  "u32lte", "u32gte", "u32min", "u32max", "ext2mul", "hperm", "hmerge", "hash", "mtree_get", "mtree_set", "mtree_merge", "mtree_verify",
-                  "adv_loadw", "adv_pipe", "mem_stream", "sdepth", "caller", "clk", "call", "syscall", "dynexec", "dyncall", "procref", "u32cast", "u32test", "u32testw",
+                  "u32lte", "u32gte", "u32min", "u32max", "ext2mul", "hmerge", "hash", "mtree_get", "mtree_set", "mtree_merge", "mtree_verify",
+                  "adv_loadw", "mem_stream", "caller", "clk", "call", "syscall", "dynexec", "dyncall", "procref", "u32cast", "u32test", "u32testw",
                   "ilog2", "is_odd", "lt", "gt", "lte", "gte", "eqw", "assert_eqw", "assertz", "cswapw", "cdropw", "fri_ext2fold4", "rcomb_base", "ext2add", "ext2sub",
                   "ext2neg", "ext2inv", "ext2div", "ext2conj", "emit", "trace", "debug", "breakpoint", "nop"):
             raise Undecided("%s:%d: instruction %s is outside the integer model" % (self.m.path, ln, ins))
